@@ -16,6 +16,7 @@ fn main() {
         Some("evm18") => evm18::main(&args[2..]),
         Some("verif") => verif::main(&args[2..]),
         Some("access") => access::main(&args[2..]),
+        Some("claims") => claims::main(&args[2..]),
         _ => {
             eprintln!("usage: drive <subsystem> ...");
             std::process::exit(2);
